@@ -176,7 +176,9 @@ func oracleReads(probes [][]byte) Oracle {
 		if v := checkReader("working", mutReader{t}, m.WorkC, probes); v != nil {
 			return v
 		}
-		for _, ver := range m.VersionCandidates(0) {
+		cands := m.VersionCandidates(0)
+		for ci := len(cands) - 1; ci >= 0; ci-- {
+			ver := cands[ci] // newest first, see Model.VersionsDesc
 			c, retained := m.Conts[ver]
 			if !retained {
 				continue // availability of non-retained versions is C14's subject
